@@ -145,6 +145,17 @@ class Engine(object):
         self.assumes.append(cls_of(rc) == UNIVERSE.cid(cls))
         return rc
 
+    def assume_class_invariants(self, st, t, spec):
+        """Assume the registered data invariants of the classes the value may be an instance of."""
+        if spec is None or spec.kind != 'obj':
+            return
+        from .model import CLASS_INVARIANTS
+        for c, items in CLASS_INVARIANTS.items():
+            if any(issubclass(c, k) or issubclass(k, c) for k in spec.classes):
+                cond = isinstance_term(t, (c,))
+                for f, v in items:
+                    self.assume(st, z3.Implies(cond, self.load(st, Val.r(t), f) == self.lift(v).t))
+
     def known_ref(self, st, t):
         """No-dangling-reference assumption for a loaded / input value."""
         self.assume(st, z3.Implies(Val.is_R(t), Val.r(t) <= self.alloc0 + self.alloc_k))
